@@ -13,7 +13,7 @@ import random
 
 import numpy as np
 
-from .. import tlc, trace, gen
+from .. import tlc, trace, gen, realdata
 from ..common import Evidence, Reporter, import_mir_eval, Machinery, frac
 from ..relations import enc
 
@@ -94,6 +94,24 @@ def run(tier, seed):
             events.append({"tid": len(events) + 1, "m": [enc(x) for x in m], "tp": tp, "tpc": tpc, "nr": [len(x) for x in rf], "ne": [len(x) for x in al]})
         except Exception as ex:  # noqa
             rep.violation("multipitch.metrics", "raised-" + type(ex).__name__, {"message": str(ex)[:200]})
+    # windows of the repository's multipitch fixtures (real transcriptions, differing time bases)
+    n_real = 0
+    for nm, (rt, rf, et, ef) in realdata.pairs(me, "multipitch", None if thorough else 3):
+        i0 = rng.randrange(0, max(1, len(rt) - 300))
+        j0 = int(np.searchsorted(et, rt[i0]))
+        t, rf_, te, ef_ = rt[i0:i0 + 300], rf[i0:i0 + 300], et[j0:j0 + 320], ef[j0:j0 + 320]
+        for w in (0.5, 0.25):
+            try:
+                m = [float(x) for x in mp.metrics(t, rf_, te, ef_, window=w)]
+                al = ef_ if (len(t) == len(te) and np.allclose(t, te)) else mp.resample_multipitch(te, ef_, t)
+                rm, em = mp.frequencies_to_midi(rf_), mp.frequencies_to_midi(al)
+                tp = [int(x) for x in mp.compute_num_true_positives(rm, em, window=w)]
+                tpc = [int(x) for x in mp.compute_num_true_positives(mp.midi_to_chroma(rm), mp.midi_to_chroma(em), window=w, chroma=True)]
+                events.append({"tid": len(events) + 1, "m": [enc(x) for x in m], "tp": tp, "tpc": tpc, "nr": [len(x) for x in rf_], "ne": [len(x) for x in al]})
+                n_real += 1
+            except Exception as ex:  # noqa
+                rep.violation("multipitch.metrics", "raised-" + type(ex).__name__, {"message": str(ex)[:200], "fixture": nm})
+    ev.cov["repository_fixture_windows"] = n_real
     rejects, st = trace.validate_par("Trace_C18", events)
     ev.tlc("Trace_C18", st, "accounting identities on recorded outcomes of larger inputs")
     for rj in rejects:
